@@ -175,6 +175,25 @@ def one_history(ns, tid, seed, want_real_update=True):
         e = dict(tid=tid, seq=seq, ev="SimSet" if t == "set" else "SimReset", seed=seed, **proj.state(live))
         seq += 1
         events.append(e)
+    if rng.random() < 0.6:
+        # a second simulation is made on the same system (accepted or refused) while the first one is switched off: the baseline
+        # stays what it was, and the FIRST simulation can still be switched on and back off
+        cl2 = change_list(ns, rng, model, live, rng.choice(["input", "input", "struct", "mixed", "invalid", "recompute-fails"]))
+        if cl2 is not None:
+            outcome2, exc2 = "created", "none"
+            try:
+                ns.ModelingUpdate(cl2[0], (lo + timedelta(hours=rng.randint(0, max(0, n_hours - 1)))).to_pydatetime())
+            except Exception as ex:   # noqa
+                outcome2, exc2 = "raised", f"{type(ex).__name__}: {str(ex)[:120]}"
+            events.append(dict(tid=tid, seq=seq, ev="SimOther", seed=seed, outcome=outcome2, exc=exc2, **proj.state(live)))
+            seq += 1
+            for t in ["set", "reset"] * rng.choice([1, 2]):
+                try:
+                    (sim.set_updated_values if t == "set" else sim.reset_values)()
+                except Exception as ex:   # noqa: the state left behind is what the event shows
+                    pass
+                events.append(dict(tid=tid, seq=seq, ev="SimSet" if t == "set" else "SimReset", seed=seed, **proj.state(live)))
+                seq += 1
     if want_real_update and date_kind == "first" and edits:
         # really apply the same changes to a rebuilt copy of the system
         twin = efx.build(ns, model)
